@@ -307,10 +307,22 @@ def run(ctx) -> int:
     for r in recs:
         src = by_id[r["id"]]["src"]
         if r["outcome"] in ("crash", "other-error"):
-            ctx.report(f"fragment:{r['id']}", "correspondence", "generator fragment",
-                       {"program": src, "observed": r.get("error"),
-                        "why": "the program left the modelled fragment (not a C08 verdict)", "replay": replay_cmd(src)},
-                       found_input=False)
+            stats["crash_or_other"] = stats.get("crash_or_other", 0) + 1
+            if stats["crash_or_other"] > 5:
+                continue
+            # not a C08 verdict at all: decide from the syntactic specification what was expected
+            try:
+                sp = spec_paths.analyse(src, "const")
+                und = sp["undef"] + sp["dead_undef"]
+                exp = ("rejected: variable not defined " + json.dumps(und)) if und else \
+                      ("rejected: different types " + json.dumps(sp["conflict"])) if sp["conflict"] else "accepted"
+                ctx.report(f"crash:{r['id']}", "counterexample", "check() neither accepts nor reports a C08 error",
+                           {"program": src, "expected": exp, "observed": r.get("error"), "replay": replay_cmd(src)})
+            except Exception as e:  # noqa: BLE001
+                ctx.report(f"fragment:{r['id']}", "correspondence", "generator fragment",
+                           {"program": src, "observed": r.get("error"), "spec_paths_error": repr(e),
+                            "why": "the program left the modelled fragment (not a C08 verdict)", "replay": replay_cmd(src)},
+                           found_input=False)
             continue
         for k, inst in enumerate(r["instances"]):
             key = (r["id"], k)
